@@ -411,6 +411,83 @@ def dash_work(fallback):
     return part
 
 
+def linked_sources(item):
+    """local sources on a real file system whose last component is a symbolic link (to a directory, to a file): the
+    remote tree is named after the source as the caller wrote it - exactly as for a plain directory or file"""
+    import os
+    fallback, write_into = item
+    part = report.Partial()
+    rig = Rig(tree={"site": {}}, server_kwargs={"block_size": 7})
+    w = rig.world
+    a = w.aioftp
+    if fallback:
+        rig.server.commands_mapping.pop("mlst")
+        rig.server.commands_mapping.pop("mlsd")
+    problems = []
+    tmp = backends.TempDir()
+    try:
+        root = tmp.path
+        backends.populate_fs(root, {"releases": {"v42": {"a.txt": b"A", "sub": {"b.txt": b"B"}}},
+                                    "logs": {"app-2026.log": b"LOG"}, "plain": {"p.txt": b"P"}})
+        os.symlink("releases/v42", str(root / "current"))
+        os.symlink("logs/app-2026.log", str(root / "latest.log"))
+        os.symlink(str(root / "plain"), str(root / "abs-link"))
+        client = a.Client(path_io_factory=a.PathIO)
+        wants = {}
+
+        async def main():
+            await client.connect("127.0.0.1", 2121)
+            await client.login()
+            for k, (src, kind, content) in enumerate([("current", "dir", {"a.txt": b"A", "sub": None, "sub/b.txt": b"B"}),
+                                                      ("latest.log", "file", b"LOG"),
+                                                      ("abs-link", "dir", {"p.txt": b"P"}),
+                                                      ("plain", "dir", {"p.txt": b"P"})]):
+                dest = f"/site/d{k}"
+                await client.make_directory(dest)
+                if kind == "file" and write_into:
+                    dest += "/renamed.log"          # (write_into: the destination is the file's own name)
+                await client.upload(root / src, dest, write_into=write_into)
+                top = dest if write_into and kind == "dir" else (dest + "/" + src)
+                if kind == "file":
+                    top = dest + "/" + src if not write_into else dest
+                    wants[top] = content
+                else:
+                    wants[top] = None
+                    for rel, v in content.items():
+                        wants[top + "/" + rel] = v
+            await client.quit()
+
+        try:
+            w.run(main())
+        except Hang:
+            problems.append({"kind": "hang"})
+        except Exception as exc:  # noqa
+            problems.append({"kind": "exception", "exc": repr(exc)[:300]})
+        if not problems:
+            snap = {k: v for k, v in rig.snapshot().items() if k.startswith("/site/d") and k.count("/") > 2 or k in wants}
+            exp = dict(wants)
+            got = {k: v for k, v in snap.items()}
+            # directories made on the way (the d<k> themselves) are not the point
+            for k in list(got):
+                if k.count("/") == 2 and k not in exp:
+                    del got[k]
+            if got != exp:
+                problems.append({"kind": "uploaded-tree-misnamed", "got": sorted(got), "want": sorted(exp)})
+        part.evaluations += 1
+        part.traces += 1
+        part.transitions += w.net.n_events
+        k = report.fp(["linked-sources", fallback, write_into])
+        part.states.add(k)
+        part.nontrivial.add(k)
+        for p in problems[:1]:
+            part.violation({"kind": p["kind"], "op": "upload of a linked source", "fallback": fallback, "write_into": write_into},
+                           {"problem": p}, replay={"linked": [fallback, write_into]})
+    finally:
+        rig.close()
+        tmp.cleanup()
+    return part
+
+
 def work(item):
     part = report.Partial()
     for case in item:
@@ -536,7 +613,8 @@ def run(tier, seed, t0):
     if seed:
         k = seed % len(items)
         items = items[k:] + items[:k]
-    part = report.merge_all(report.pmap(work, items) + [dash_work(False), dash_work(True)])
+    part = report.merge_all(report.pmap(work, items) + [dash_work(False), dash_work(True)]
+                            + report.pmap(linked_sources, [(fb, wi) for fb in (False, True) for wi in (False, True)]))
     bounds = {"dash_names": "list / download / remove of a directory named -x by its bare relative name (MLSD and LIST-only)",
               "sources": nsrc, "max_nodes": 4 if tier == "quick" else 5, "names": ["a", "b"], "separator_names": ["old; new", "x; Type=dir; y", "a -> b", "Size=1;z", "~", "x y  z"], "near_duplicate_names": ["README / readme", "composed / decomposed café"], "destinations": DESTS, "write_into": [False, True],
               "remote_cwd": ["/", "/w"], "block_sizes": [1, 8192], "servers": ["MLSD", "LIST fallback"], "encodings": ["utf-8", "latin-1 with non-ASCII names (trees <= 3 nodes)"],
@@ -557,6 +635,10 @@ def run(tier, seed, t0):
 
 def replay(path):
     data = json.loads(open(path).read())
+    if "linked" in data["replay"]:
+        part = linked_sources(tuple(data["replay"]["linked"]))
+        print(json.dumps([v["detail"] for v in part.violations], indent=1, default=repr))
+        return 1 if part.violations else 0
     if "dash" in data["replay"]:
         problems, _ = dash_tree(data["replay"]["dash"])
         print(json.dumps(problems, indent=1, default=repr))
